@@ -355,6 +355,7 @@ func main() {
 				switch {
 				case !out.Returned:
 					res.Violation("target-error-replay-hangs", "Send did not return after a target error and made no progress for two 3 s windows", w)
+					return // every further point of this snapshot would wait out the same hang
 				case out.Err == nil:
 					res.Violation("target-error-swallowed|"+pathName(sc), fmt.Sprintf("the target answered an error to write %d of %d but Send returned nil", k, len(writes)), w)
 				case hasCp(out, sc.Offset):
@@ -373,12 +374,14 @@ func main() {
 				return
 			}
 			nreq := len(base.Reqs)
+			hung := false
 			judge := func(label string, out *fullsync.Outcome, s2 *fullsync.Scenario) {
 				res.Evals++
 				w := describe()
 				w["cancel"], w["send_error"] = label, fmt.Sprint(out.Err)
 				if !out.Returned {
 					res.Violation("cancelled-replay-hangs", "Send did not return after cancellation and made no progress for two 3 s windows", w)
+					hung = true
 					return
 				}
 				complete := out.Err == nil || hasCp(out, sc.Offset)
@@ -425,6 +428,9 @@ func main() {
 					continue
 				}
 				judge(fmt.Sprintf("at target request %d of %d", k, nreq), out, &s2)
+				if hung {
+					return
+				}
 			}
 			// cancellation right after the parser consumed the last byte, workers still busy
 			for rep := 0; rep < 6; rep++ {
@@ -442,6 +448,27 @@ func main() {
 					continue
 				}
 				judge(fmt.Sprintf("right after the last snapshot byte was consumed (rep %d)", rep), out, &s2)
+			}
+			// cancellation at the moment the parser has been given the b-th snapshot byte, for every b:
+			// the parser, the distributor and the workers all learn of it while they are running
+			if sc.Parallel <= 2 {
+				for b := 1; b < len(sc.File); b++ {
+					if b%64 == 0 {
+						progress("P cancel %s byte=%d", idx, b)
+					}
+					s2 := *sc
+					s2.CancelAtByte = b
+					out, why := fullsync.Run(&s2, nil)
+					if out == nil {
+						res.Inconc("harness: %s", why)
+						continue
+					}
+					judge(fmt.Sprintf("when the parser had been given %d of %d snapshot bytes", b, len(sc.File)), out, &s2)
+					if hung {
+						return
+					}
+				}
+				res.Count("cancel_points_by_snapshot_byte", int64(len(sc.File)-1))
 			}
 			res.Count("cancel_points", int64(nreq+6))
 		}
